@@ -481,6 +481,72 @@ func TestVerif_C10(t *testing.T) {
 	// second family: association end without Stop; the same peer must be able to associate afresh and
 	// other associations must be unaffected.
 	c10Refresh(t, res)
+	c10NamedPeer(res)
+}
+
+// c10NamedPeer: the agent opens the association itself, towards a peer that is configured by host name ("localhost",
+// the only name that resolves offline). The association is live, then the agent is stopped: Stop returns, and did so too
+// when the association had ended before.
+func c10NamedPeer(res *vResult) {
+	for k := 0; k < vEnv.pick(2, 40); k++ {
+		idx := 3000000 + k
+		if !vEnv.mine(idx) {
+			continue
+		}
+		res.begin(idx, fmt.Sprintf("c10 peer configured by name %d", k), nil)
+		cp, err := c12NewPeer("127.0.0.1:"+PFCPPort, vEnv.addr(1))
+		if err != nil {
+			res.note("named-peer scenario skipped: 127.0.0.1:8805 is taken (" + err.Error() + ")")
+			return
+		}
+		cp.setPolicy(func(m message.Message, nth int) [][]byte {
+			switch q := m.(type) {
+			case *message.AssociationSetupRequest:
+				return [][]byte{vMarshal(message.NewAssociationSetupResponse(q.SequenceNumber, ie.NewNodeID(cp.nodeID, "", ""), ie.NewCause(ie.CauseRequestAccepted), ie.NewRecoveryTimeStamp(cp.ts)))}
+			case *message.HeartbeatRequest:
+				if k%2 == 0 {
+					return [][]byte{c12HBResp(cp, q.SequenceNumber)}
+				}
+			}
+			return nil
+		})
+		o := vDefaultOpts(false, vEnv.addr(1))
+		o.Peers = []string{"localhost"}
+		o.RespTimeout, o.MaxRetries = 100*time.Millisecond, 1
+		o.HB, o.HBInterval = true, 50*time.Millisecond
+		a, err := vStartAgent(o)
+		if err != nil {
+			cp.close()
+			res.inconclusive("agent start: " + err.Error())
+			return
+		}
+		seen := cp.waitFor(3*time.Second, func(rx []c12Rx) bool {
+			for _, r := range rx {
+				if _, ok := r.Msg.(*message.AssociationSetupRequest); ok {
+					return true
+				}
+			}
+			return false
+		})
+		if !seen {
+			res.note("named-peer scenario: the agent did not open the association towards localhost")
+		}
+		// k even: the association is live at Stop; k odd: heartbeats go unanswered, it has ended before Stop
+		time.Sleep(600 * time.Millisecond)
+		res.eval(1)
+		res.event("stops_with_a_peer_configured_by_name", 1)
+		res.distinct(fmt.Sprintf("named-peer/live=%v", k%2 == 0))
+		if !a.stop(vStopWatchdog) {
+			frame, dump := c10WedgeWitness()
+			if frame != "" {
+				res.violate("C10.R2", frame, fmt.Sprintf("PFCPIface.Stop() did not return within %v with an association the agent opened towards a peer configured by host name (association live at Stop: %v); teardown goroutine parked in %s", vStopWatchdog, k%2 == 0, frame), map[string]interface{}{"goroutine": dump})
+			} else {
+				res.inconclusive("Stop() did not return within the watchdog (named peer) but no parked teardown frame was found")
+			}
+			res.flush()
+		}
+		cp.close()
+	}
 }
 
 func c10Refresh(t *testing.T, res *vResult) {
